@@ -14,7 +14,8 @@ class Prop(PropBase):
     LEAN_MODULES = ["Tpp.Props.C11"]
     REQUIRED = ["Tpp.Props.C11." + n for n in ("C11_modes", "C11_modes_from_start", "C11_no_bytes_without_capability",
                                                 "C11_title_terminator", "C11_disable_mirrors_enable", "consistent_step",
-                                                "C11_modes_any_size", "C11_modes_readme")] + \
+                                                "C11_modes_any_size", "C11_modes_readme",
+                                                "run_noMode_modes", "C11_draw_keeps_modes", "C11_hide_then_draw")] + \
                ["Tpp.step_modes", "Tpp.rstep_modes"]
     RULE = ("exhaustive: all 16 combinations of the mouse/title capability flags x every sequence of length <= 3 (quick) / "
             "<= 4 (thorough) over the 8 mode operations (hide, show, enable/disable mouse, normal/alternate buffer, two "
